@@ -1,9 +1,10 @@
 import Ops.Core
+import Ops.Codec
 /- Line-protocol driver of the executable model: one op per line in, one line out. -/
 open Draco
 
 def allOps : List (String × (List String → String)) :=
-  Ops.coreOps
+  Ops.coreOps ++ Ops.codecOps
 
 def dispatch (line : String) : String :=
   match (line.trimAscii.toString.splitOn " ").filter (· ≠ "") with
